@@ -71,3 +71,7 @@ Proof. split; vm_compute; reflexivity. Qed.
 (* DSA: x = 3, y = 8, k = 4, kinv = 3, r = (2^3 mod 23) mod 11 = 8, m = 5, s = 4 * (5 + 3*8) mod 11 = 6 *)
 Example C16_nonvacuous_dsa : dss_verify G23 8 5 8 6 = Some true /\ dsa_textbook G23 8 5 8 6 = true.
 Proof. split; vm_compute; reflexivity. Qed.
+(* Lagrange at 0 as Reconstruct computes it: the line 3 + 5 x over Z_11 from the points x = 2, 4 (general correctness of
+   Lagrange reconstruction is C15's theorem; here the function is model-compared with the real Reconstruct) *)
+Example C16_nonvacuous_interp0 : interp0 11 [(2, (3 + 5 * 2) mod 11); (4, (3 + 5 * 4) mod 11)] = Some 3.
+Proof. vm_compute. reflexivity. Qed.
